@@ -845,7 +845,8 @@ func (fr *frame) visit(instr ssa.Instruction) bool {
 		fn, args := fr.prepareCall(&x.Call)
 		in.spawn(fr, fn, args)
 	case *ssa.MakeChan:
-		fr.env[x] = &Chan{}
+		in.objSeq++
+		fr.env[x] = &Chan{id: in.objSeq}
 	case *ssa.Alloc:
 		cell := new(Value)
 		*cell = in.zero(x.Type().(*types.Pointer).Elem())
